@@ -7,7 +7,8 @@ PROP = 'C14'
 STEP_KINDS = ['rewrite', 'assign-value', 'assign-units', 'rename', 'origin-ref', 'cast-dtype', 'add-objects',
               'add-nf-data', 'other-window', 'other-chunks', 'other-data', 'other-data-dtype', 'other-data-width', 'foreign-same-names', 'foreign-colliding-values',
               'hc-mode-around', 'param-values', 'clear-channel-units', 'change-channel-units', 'assign-other-kind',
-              'rename-then-reuse-name', 'rejected-add-then-same-name', 'assign-derived-attr', 'rename-channel']
+              'rename-then-reuse-name', 'rejected-add-then-same-name', 'assign-derived-attr', 'rename-channel',
+              'channel-leaves-frame', 'frameless-channel-dimension', 'frameless-channel-joins-frame']
 META = {
     'level': 'exploration',
     'rule': ('one evaluation = one history (foreign files built and written, the target file built, written, mutated and '
@@ -59,7 +60,14 @@ def base_spec(r, avoid):
         fat['spacing'] = {'$setup': {'units': 'ft'}, 'route': r.choice(['dict', 'AttrSetup'])}
     if r.random() < 0.3:
         fat['index_max'] = {'$setup': {'value': 12.0, 'units': 'in'}, 'route': 'dict'}
-    ops.append(gen.frame_op('K-FRAME', [len(ops) - 2, len(ops) - 1], **fat))
+    ops.append(gen.channel_op('K-IMAGE', '<i2', (n, 2), fill={'kind': 'pos', 'tag': 322}))
+    ops.append(gen.frame_op('K-FRAME', [len(ops) - 3, len(ops) - 2, len(ops) - 1], **fat))
+    # a channel in no frame (data at hand), with only one of DIMENSION / ELEMENT-LIMIT given, or neither
+    lon = gen.channel_op('K-LONER', '<u2', (n, 2), fill={'kind': 'pos', 'tag': 323})
+    form = r.choice(['dimension', 'element_limit', 'none'])
+    if form != 'none':
+        lon['attrs'][form] = [2] if form == 'dimension' else [r.choice([2, 3])]
+    ops.append(lon)
     ops.append({'op': 'long_name', 'name': 'K-LN', 'attrs': {'quantity': 'pressure'}})
     ops.append({'op': 'parameter', 'name': 'K-PARAM', 'attrs': {'values': [r.choice(['text value', 12.5, 7])], 'long_name': 'param text'}})
     ops.append({'op': 'zone', 'name': 'K-ZONE', 'attrs': {'domain': 'TIME', 'maximum': 5.5, 'minimum': 1.0}})
@@ -177,6 +185,28 @@ def make_phase(r, kind, ops_so_far, base, avoid):
         elif 'K-CURVE' in byname:
             ph['ops'].append({'op': 'assign', 'target': byname['K-CURVE'], 'target_op': 'channel', 'kw': 'element_limit', 'part': 'value',
                               'value': [r.choice([2, 3, 8])]})
+    elif kind in ('channel-leaves-frame', 'frameless-channel-dimension', 'frameless-channel-joins-frame'):
+        byname = {}
+        for i, o in objs:
+            byname.setdefault(o['name'], i)
+        if all(k_ in byname for k_ in ('K-FRAME', 'K-INDEX', 'K-CURVE', 'K-IMAGE', 'K-LONER')):
+            cur = [byname['K-INDEX'], byname['K-CURVE'], byname['K-IMAGE']]
+            for q in ops_so_far:
+                if q.get('op') == 'assign' and q.get('target') == byname['K-FRAME'] and q.get('kw') == 'channels':
+                    cur = [x['$ref'] for x in q['value']['$tuple']]
+            lon = byname['K-LONER']
+            if kind == 'channel-leaves-frame' and len(cur) > 1:
+                # what the previous write derived for the channel (DIMENSION, ELEMENT-LIMIT, representation code) described
+                # its data as a member of the frame
+                out = r.choice(cur[1:])
+                ph['ops'].append({'op': 'assign', 'target': byname['K-FRAME'], 'target_op': 'frame', 'kw': 'channels', 'part': 'value',
+                                  'value': {'$tuple': [{'$ref': x} for x in cur if x != out]}})
+            elif kind == 'frameless-channel-dimension' and lon not in cur:
+                ph['ops'].append({'op': 'assign', 'target': lon, 'target_op': 'channel', 'kw': r.choice(['dimension', 'dimension', 'element_limit']),
+                                  'part': 'value', 'value': [r.choice([1, 2, 5])]})
+            elif kind == 'frameless-channel-joins-frame' and lon not in cur:
+                ph['ops'].append({'op': 'assign', 'target': byname['K-FRAME'], 'target_op': 'frame', 'kw': 'channels', 'part': 'value',
+                                  'value': {'$tuple': [{'$ref': x} for x in cur + [lon]]}})
     elif kind == 'rename-then-reuse-name':
         # an object gets another name, then its former name is given to a new object of the same type and set; the final
         # specification (what the fresh interpreter builds) simply has the two objects under their final names
